@@ -45,8 +45,10 @@ type Reader struct {
 	FailAt      int   // offset at which the reader fails (sticky); <0 = never
 	FailErr     error // the error it fails with (default ErrInjected)
 	ErrWithData bool  // deliver the last bytes before FailAt together with the error, in one Read
+	OneShot     bool  // the error is reported once; later reads carry on with the rest of the data (errors need not be sticky)
 	NoClose     bool
 
+	Failures  int // one-shot errors reported so far
 	pos       int
 	zeros     int
 	failed    bool
@@ -75,6 +77,11 @@ func (r *Reader) Read(p []byte) (int, error) {
 	}
 	r.zeros = 0
 	if r.FailAt >= 0 && r.pos >= r.FailAt {
+		if r.OneShot {
+			r.FailAt = -1
+			r.Failures++
+			return 0, r.failErr()
+		}
 		r.failed = true
 		return 0, r.failErr()
 	}
@@ -102,6 +109,11 @@ func (r *Reader) Read(p []byte) (int, error) {
 	copy(p, r.Data[r.pos:r.pos+n])
 	r.pos += n
 	if r.ErrWithData && r.FailAt >= 0 && r.pos >= r.FailAt {
+		if r.OneShot {
+			r.FailAt = -1
+			r.Failures++
+			return n, r.failErr()
+		}
 		r.failed = true
 		return n, r.failErr()
 	}
